@@ -4,6 +4,7 @@ from ..common import calls_in, norm, DF, LOD, VEC, kw
 from ..model import AnalysisError, body_nodes, FunctionInfo
 from ..facts import facts_at
 from ..dataflow import defs_reaching
+from ..pattern import pmatch, pstmt, text
 
 EXPLANATION = (
     "Boundary wiring decided from source: (TNT-tolist) every exporter (to_arrow, to_pandas, to_list_of_dicts; to_json and "
@@ -95,52 +96,75 @@ def check(ctx):
     recs = {}
     for name in ("from_arrow", "from_pandas"):
         fn = repo.fn(f"{DF}.{name}")
-        rec = {}
-        asg = {}
-        for n in sorted((x for x in body_nodes(fn.node) if isinstance(x, ast.Assign)), key=lambda x: x.lineno):
-            if isinstance(n.targets[0], ast.Name):
-                asg.setdefault(n.targets[0].id, []).append(n)
-        na = asg.get("na", [])
-        rec["mask"] = norm(na[0].value) if na else None
-        col0 = asg.get("column", [])
-        rec["values"] = norm(col0[0].value) if col0 else None
-        tol = [n for n in col0 if norm(n.value) == "column.tolist()"]
-        rec["fallback"] = None
-        if tol:
-            facts = sorted(t for k, t in facts_at(fn, tol[0]) if k == "T" and not t.startswith("iter:"))
-            rec["fallback"] = facts
-        fast = [n for n in col0 if "DataFrameColumn.fast(" in norm(n.value)]
-        rec["fast"] = norm(fast[0].value) if fast else None
-        up = [n for n in col0 if ".astype(" in norm(n.value)]
-        rec["upcast"] = (norm(up[0].value), sorted(t for k, t in facts_at(fn, up[0]) if k == "T" and not t.startswith("iter:"))) if up else None
-        st = [n for n in body_nodes(fn.node) if isinstance(n, ast.Assign) and isinstance(n.targets[0], ast.Subscript) and norm(n.targets[0].value) == "column"]
-        rec["store"] = (norm(st[0]), sorted(t for k, t in facts_at(fn, st[0]) if k == "T" and not t.startswith("iter:"))) if st else None
+        stm = sorted((x for x in body_nodes(fn.node) if isinstance(x, ast.stmt)), key=lambda x: x.lineno)
+        rec = {"mask": None, "values": None, "fallback": None, "fast": None, "upcast": None, "store": None, "yield": None}
         ys = [n for n in body_nodes(fn.node) if isinstance(n, ast.Yield)]
-        rec["yield"] = norm(ys[0].value) if ys else None
-        recs[name] = (fn, rec)
-    (fa, a), (fp, b) = recs["from_arrow"], recs["from_pandas"]
-    for fn, rec, src_ok in ((fa, a, ("is_null(nan_is_null=True)" in (a["mask"] or "") and (a["mask"] or "").startswith("column.") and (a["values"] or "").startswith("column.")),),
-                            (fp, b, ("isna()" in (b["mask"] or "") and (b["mask"] or "").startswith("data[name].") and (b["values"] or "").startswith("data[name].")),)):
-        src_ok = src_ok[0] if isinstance(src_ok, tuple) else src_ok
+        by = pmatch("(_NAME, _COL)", ys[0].value) if ys else None
+        if by is None or not isinstance(by["_COL"], ast.Name):
+            raise AnalysisError(f"{fn.qualname}: importer no longer yields (name, column)")
+        COL, NAME = by["_COL"].id, text(by["_NAME"])
+        rec["yield"] = "(NAME, COL)"
+
+        def norm_t(t, NA=None):
+            import re as _re
+            t = _re.sub(rf"\b{_re.escape(COL)}\b", "COL", t)
+            if NA:
+                t = _re.sub(rf"\b{_re.escape(NA)}\b", "NA", t)
+            return t
+        NA = None
+        for n in stm:
+            bs = pstmt(f"{COL}[_NA] = {COL}.na_value", n)
+            if bs is not None and isinstance(bs["_NA"], ast.Name):
+                NA = bs["_NA"].id
+                rec["store"] = ("COL[NA] = COL.na_value", sorted(norm_t(t, NA) for k, t in facts_at(fn, n) if k == "T" and not t.startswith("iter:")))
+        for n in stm:
+            if pstmt(f"{COL} = {COL}.astype({COL}.na_dtype)", n) is not None:
+                rec["upcast"] = ("COL.astype(COL.na_dtype)", sorted(norm_t(t, NA) for k, t in facts_at(fn, n) if k == "T" and not t.startswith("iter:")))
+            if pstmt(f"{COL} = {COL}.tolist()", n) is not None:
+                rec["fallback"] = sorted(norm_t(t, NA).replace("np.dtype(_REQ)", "np.dtype(REQ)") for k, t in facts_at(fn, n) if k == "T" and not t.startswith("iter:"))
+            bf = pstmt(f"{COL} = DataFrameColumn.fast({COL}, _REQ)", n)
+            if bf is not None:
+                req = bf["_REQ"]
+                rdefs = [d.value for d in defs_reaching(fn, req.id, n)] if isinstance(req, ast.Name) else []
+                okreq = bool(rdefs) and all(rv is not None and pmatch(f"__.get({NAME}, None)", rv) is not None for rv in rdefs)
+                rec["fast"] = "DataFrameColumn.fast(COL, REQ)" if okreq else f"DataFrameColumn.fast(COL, {text(req)})"
+                rec["req"] = text(req)
+        if NA is not None:
+            mdefs = [n for n in stm if isinstance(n, ast.Assign) and text(n.targets[0]) == NA]
+            rec["mask"] = text(mdefs[0].value) if mdefs else None
+        vdefs = [n for n in stm if isinstance(n, ast.Assign) and text(n.targets[0]) == COL and ".to_numpy(" in text(n.value)]
+        rec["values"] = text(vdefs[0].value) if vdefs else None
+        if rec.get("req") and rec["fallback"]:
+            import re as _re
+            rec["fallback"] = [_re.sub(rf"\b{_re.escape(rec['req'])}\b", "REQ", t) for t in rec["fallback"]]
+        recs[name] = (fn, rec, COL, NAME)
+    (fa, a, ca, na_), (fp, b, cb_, nb_) = recs["from_arrow"], recs["from_pandas"]
+    src_a = a["mask"] is not None and a["values"] is not None and a["mask"].startswith(f"{ca}.is_null(nan_is_null=True)") and a["values"].startswith(f"{ca}.to_numpy(")
+    src_b = False
+    if b["mask"] is not None and b["values"] is not None:
+        m1 = pmatch("_S.isna().to_numpy(copy=True)", ast.parse(b["mask"], mode="eval").body)
+        m2 = pmatch("_S.to_numpy(copy=True)", ast.parse(b["values"], mode="eval").body)
+        src_b = m1 is not None and m2 is not None and text(m1["_S"]) == text(m2["_S"]) and text(m1["_S"]).endswith(f"[{nb_}]")
+    for fn, rec, src_ok in ((fa, a, src_a), (fp, b, src_b)):
         ctx.ob("SIB-11", fn, f"mask {rec['mask']} / values {rec['values']}", fn.node, bool(src_ok),
                "null mask and values are taken from the same source column, nulls incl. NaN" if src_ok else
                "null mask and values do not come from the same source column (or NaN is not treated as null)",
                clause="the same missing positions")
-        ok = rec["store"] is not None and rec["store"][0] == "column[na] = column.na_value" and "na.any()" in rec["store"][1]
+        ok = rec["store"] is not None and "NA.any()" in rec["store"][1]
         ctx.ob("SIB-11", fn, f"masked store {rec['store']}", fn.node, ok,
                "nulls become the column's own missing value" if ok else "nulls are not stored as column.na_value under the source's mask",
                clause="the same missing positions")
-        ok = rec["upcast"] is not None and rec["upcast"][0] == "column.astype(column.na_dtype)" and "column.dtype != column.na_dtype" in rec["upcast"][1] \
-            and "na.any()" in rec["upcast"][1]
+        ok = rec["upcast"] is not None and "COL.dtype != COL.na_dtype" in rec["upcast"][1] \
+            and "NA.any()" in rec["upcast"][1]
         ctx.ob("SIB-11", fn, f"upcast {rec['upcast']}", fn.node, ok,
                "a column that cannot hold its missing value is cast to na_dtype first, and only then" if ok else
                "the upcast to na_dtype is missing, unconditional, or not guarded by dtype != na_dtype (integers without nulls would become float)",
                clause="the same dtype for every boolean, integer, float and string column")
-        ok = rec["fallback"] is not None and any("np.object_" in t for t in rec["fallback"]) and any("req_dtype is None" in t for t in rec["fallback"])
+        ok = rec["fallback"] is not None and any("np.object_" in t and "COL.dtype" in t for t in rec["fallback"]) and any("REQ is None" in t for t in rec["fallback"])
         ctx.ob("SIB-11", fn, f"object fallback under {rec['fallback']}", fn.node, ok,
                "object arrays are re-guessed from a Python list unless object was requested" if ok else
                "object-dtype source columns are not handed to the type guesser as lists", clause="the same dtype for string columns")
-        ok = rec["fast"] == "DataFrameColumn.fast(column, req_dtype)" and rec["yield"] == "(name, column)"
+        ok = rec["fast"] == "DataFrameColumn.fast(COL, REQ)" and rec["yield"] == "(NAME, COL)"
         ctx.ob("SIB-11", fn, f"{rec['fast']} -> yield {rec['yield']}", fn.node, ok, "column built with the requested dtype and yielded under its name" if ok else
                "importer does not build DataFrameColumn.fast(column, req_dtype) / yield (name, column)", nontrivial=False)
     diff = {k: (a[k], b[k]) for k in ("fallback", "fast", "upcast", "store", "yield") if a[k] != b[k]}
@@ -151,7 +175,7 @@ def check(ctx):
     for fn in (fa, fp):
         vals = {norm(n.value) for n in body_nodes(fn.node) if isinstance(n, ast.Attribute) and n.attr == "na_value"}
         dts = {norm(n.value) for n in body_nodes(fn.node) if isinstance(n, ast.Attribute) and n.attr == "na_dtype"}
-        ok = vals == dts == {"column"}
+        ok = vals == dts and len(vals) == 1
         ctx.ob("SIB-5", fn, f"na_value of {sorted(vals)} / na_dtype of {sorted(dts)}", fn.node, ok,
                "value and dtype from the same column" if ok else "NA value and NA dtype are taken from different objects")
     # LoD -> DataFrame
